@@ -106,13 +106,18 @@ class Ctx:
             self.samples.append(sample)
 
     # ---- verdict-bearing events -----------------------------------------------------------
-    def fail(self, what, case, reason=None, **details):
+    def fail(self, what, case, reason=None, how=None, **details):
         """The property fails on the real code for `case`.  `reason`: name of a domain-predicate
-        disjunct when the input lies outside the theorems' domain (known-findings classifier)."""
+        disjunct when the input lies outside the theorems' domain (known-findings classifier).
+        `how`: the way it fails (e.g. value changed / does not parse back); a recorded finding lists the ways it
+        is known to fail, and a failure of another kind in the same region is a new violation."""
         if reason is not None and reason in self.open_reasons:
-            fid = self.open_reasons[reason]['id']
-            self.known_hits[fid] = self.known_hits.get(fid, 0) + 1
-            return
+            f = self.open_reasons[reason]
+            if how is None or 'how' not in f or how in f['how']:
+                self.known_hits[f['id']] = self.known_hits.get(f['id'], 0) + 1
+                self.count(f'KNOWN:{reason}:{how}')
+                return
+            what = f'{what} [region of {f["id"]}, but it fails in a way not recorded there: {how}]'
         self.count(f'FAIL:{what}:{reason}')
         if len(self.failures) < 50:
             self.failures.append({'what': what, 'case': case, 'reason': reason, 'details': details})
